@@ -5,6 +5,7 @@ CONSTANTS
   FullNode = TRUE
   Cap = 2
   Weaken = "none"
+  GapFix = FALSE
   Direct = FALSE
   Timeouts = FALSE
 PROPERTY HistMonotoneNZ
